@@ -503,6 +503,7 @@ fn c04_file(ctx: &mut Ctx, k: usize, records: &[Vec<u8>], mode: &str, threads: u
 }
 
 pub fn c04(ctx: &mut Ctx) {
+
     // per-record function, small scope
     let l = ctx.pick(8, 11);
     let sets: Vec<OligoSet> = (1..=8).map(oligo_set).collect();
@@ -837,6 +838,7 @@ pub fn cgr_record_sets() -> Vec<(&'static str, Vec<Vec<u8>>)> {
 }
 
 pub fn c11(ctx: &mut Ctx) {
+
     cgr_reuse(ctx, false);
     let comps: Vec<(usize, CgrComputer)> = CGR_SIZES.iter().map(|&s| (s, CgrComputer::new("-".into(), "-".into(), s))).collect();
     // clean strings
@@ -1273,6 +1275,7 @@ pub fn c12_record_sets() -> Vec<(&'static str, Vec<Vec<u8>>)> {
 
 pub fn c12(ctx: &mut Ctx) {
     ctx.lap("start");
+
     cgr_reuse(ctx, true);
     ctx.lap("c12.reuse");
     let sizes = [1usize, 3, 4, 16, 49, 1000, 65_536, (1 << 20) - 1, 1 << 20];
